@@ -270,7 +270,8 @@ theorem single_row_guard_sound (s : ElimShape) (h : hasSingleOutputRow singleRow
   simp only at hl
   subst hl
   revert h
-  cases having <;> cases where_ <;> cases noFrom <;> cases group <;> cases allAgg <;> decide
+  cases having <;> cases where_ <;> cases noFrom <;> cases group <;> cases allAgg <;>
+    simp [hasSingleOutputRow, allSingleRowAtoms]
 
 /-- STILL TRUE TODAY (known finding C03-eliminate-joins-limit1-empty; fixtures pin the rewrite): LIMIT 1 bounds the
     row count by one from ABOVE only; with ZERO rows the cross join is empty and dropping it is wrong -/
